@@ -267,3 +267,17 @@ def run(prog, chk):
             r3.ok("scan_unquoted:" + var, want)
         else:
             r3.violation(sf.file, sf.name, sf.line, "scan_unquoted:" + var, "%s spells %r, expected %r" % (var, su.get(var), want))
+
+    r4 = chk.rule("R4-eof-sentinel-stays-in-scanner", "CIF_EOF, the scanner's end-of-input mark (numerically CIF_TRAVERSE_SKIP_CURRENT), "
+                  "is returned only by the functions that produce it: every scan / parse function replaces it before returning "
+                  "(a token ending exactly at end of input is still delivered)", primary=False, floor=15)
+    from .. import eofsentinel
+    if eofsentinel.rule(prog, r4) < 15:
+        raise Broken("fewer than 15 int functions analysed in parser.c")
+
+    r5 = chk.rule("R5-closing-delimiter-run", "a triple-quoted string ends at three contiguous delimiter characters: the counter of "
+                  "consecutive delimiters is reset by every other character", primary=False, floor=1)
+    from .. import memrules
+    if memrules.run_counters(prog, r5) < 1:
+        raise Broken("no run counter found in parser.c (expected delim_count of scan_triple_delim_string)")
+
